@@ -45,7 +45,9 @@ def sh(cmd, **kw):
 def regenerate_facts() -> tuple[bool, str]:
     """Run gen_facts.py against /repo; (ok, message).  Fail-closed."""
     p = sh([sys.executable, str(VERIF / "harness" / "gen_facts.py")])
-    return p.returncode == 0, (p.stdout + p.stderr)[-3000:]
+    # rc 3 = some section could not be lifted: Generated.v then carries GEN_<SECTION>_OK = false and only the
+    # properties whose Properties/Cxx.v states GEN_<SECTION>_OK = true lose their obligations (build failure below)
+    return p.returncode in (0, 3), (p.stdout + p.stderr)[-3000:]
 
 
 def ensure_makefile():
